@@ -1,5 +1,5 @@
 (* C16 - Cargo features only add members; they never change the wire format of the rest. *)
-From Ctap Require Import Base Schema Typed WellTyped Inst Tables Limits Extends SerP RoundTripP MonoP ObEnvRt.
+From Ctap Require Import Base Schema Typed WellTyped Inst Tables Limits Extends SerP RoundTripP MonoP LiftP ObEnvRt.
 Local Open Scope string_scope.
 Local Open Scope Z_scope.
 
@@ -41,17 +41,54 @@ Proof.
   exact (encode_mono_family gen_env f f' t v b c16_generated_extends generated_env_rt Hf Hf' Hs W H).
 Qed.
 
-(* and what the larger configuration decodes from such an encoding is a value with the same encoding
-   (round trip in the larger configuration): nothing common is renumbered, renamed or re-typed *)
+(* DECODE HALF.  The same message - the encoding of any value well-typed in the smaller configuration -
+   decodes in the smaller configuration to that value and in the larger one to [lift] of it: the same value
+   in which every member that exists only in the larger configuration is reported absent; nothing common is
+   renumbered, renamed, re-typed or changes its value *)
+Theorem c16_extension_preserves_decoding : forall e e' t v b rest,
+  env_extends e e' = true -> env_rt e = true -> env_rt e' = true -> pkcp_plain e' = true ->
+  wt e type_fuel t v = true -> encode e t v = Some b ->
+  decode e t (b ++ rest)%list = Ok (v, rest) /\
+  decode e' t (b ++ rest)%list = Ok (lift e' type_fuel t v, rest).
+Proof. exact decode_in_extension. Qed.
+
+(* what lift is: on a record, the members of the larger configuration that the value carries keep (the lift
+   of) their value and all other members are absent; lifting into the same configuration is the identity *)
+Theorem c16_lift_record : forall e' k name ix s d fs' vs, lookup e' name = Some (DStruct ix s d fs') ->
+  lift e' (S k) (TNamed name) (VRec vs) =
+  VRec (map (fun fd => (f_label fd, match rget (f_label fd) vs with
+                                    | Some fv => lift e' k (f_ty fd) fv | None => VNone end)) fs').
+Proof. exact lift_record. Qed.
+Theorem c16_lift_identity : forall e, env_rt e = true -> forall k t v, wt e k t v = true -> lift e k t v = v.
+Proof. exact lift_same_env. Qed.
+
+Theorem c16_generated_params_plain : forallb (fun f => pkcp_plain (gen_env f)) all_feats = true.
+Proof. vm_compute. reflexivity. Qed.
+
+Lemma decode_family : forall (envf : feats -> env) f f' t v b rest,
+  all_pairs_extend envf = true -> forallb (fun f => env_rt (envf f)) all_feats = true ->
+  forallb (fun f => pkcp_plain (envf f)) all_feats = true ->
+  In f all_feats -> In f' all_feats -> subset_feats f f' = true ->
+  wt (envf f) type_fuel t v = true -> encode (envf f) t v = Some b ->
+  decode (envf f) t (b ++ rest)%list = Ok (v, rest) /\
+  decode (envf f') t (b ++ rest)%list = Ok (lift (envf f') type_fuel t v, rest).
+Proof.
+  intros envf f f' t v b rest X R P Hf Hf' Hs W H.
+  apply (decode_in_extension (envf f) (envf f') t v b rest (all_pairs_extend_at envf f f' X Hf Hf' Hs)); try assumption.
+  - exact (forallb_In (fun f => env_rt (envf f)) all_feats f R Hf).
+  - exact (forallb_In (fun f => env_rt (envf f)) all_feats f' R Hf').
+  - exact (forallb_In (fun f => pkcp_plain (envf f)) all_feats f' P Hf').
+Qed.
+
+(* instantiated at the declarations regenerated from /repo: any two feature sets f <= f' *)
 Theorem c16_common_message_decodes_in_both : forall f f' t v b rest,
   In f all_feats -> In f' all_feats -> subset_feats f f' = true ->
   wt (gen_env f) type_fuel t v = true -> encode (gen_env f) t v = Some b ->
-  decode (gen_env f) t (b ++ rest)%list = Ok (v, rest) /\ encode (gen_env f') t v = Some b.
+  decode (gen_env f) t (b ++ rest)%list = Ok (v, rest) /\
+  decode (gen_env f') t (b ++ rest)%list = Ok (lift (gen_env f') type_fuel t v, rest).
 Proof.
-  intros f f' t v b rest Hf Hf' Hs W H. split.
-  - apply (decode_encode (gen_env f) t v b rest); [|exact W|exact H].
-    exact (forallb_In (fun f => env_rt (gen_env f)) all_feats f generated_env_rt Hf).
-  - exact (encode_mono_family gen_env f f' t v b c16_generated_extends generated_env_rt Hf Hf' Hs W H).
+  intros f f' t v b rest Hf Hf' Hs W H.
+  exact (decode_family gen_env f f' t v b rest c16_generated_extends generated_env_rt c16_generated_params_plain Hf Hf' Hs W H).
 Qed.
 
 Example c16_ex : subset_feats ["large-blobs"] ["get-info-full"; "large-blobs"] = true.
@@ -64,3 +101,7 @@ Eval vm_compute in "ASSUMPTIONS c16_large_blob_fragment". Print Assumptions c16_
 Eval vm_compute in "ASSUMPTIONS c16_extension_preserves_encoding". Print Assumptions c16_extension_preserves_encoding.
 Eval vm_compute in "ASSUMPTIONS c16_encoding_independent_of_features". Print Assumptions c16_encoding_independent_of_features.
 Eval vm_compute in "ASSUMPTIONS c16_common_message_decodes_in_both". Print Assumptions c16_common_message_decodes_in_both.
+Eval vm_compute in "ASSUMPTIONS c16_extension_preserves_decoding". Print Assumptions c16_extension_preserves_decoding.
+Eval vm_compute in "ASSUMPTIONS c16_lift_record". Print Assumptions c16_lift_record.
+Eval vm_compute in "ASSUMPTIONS c16_lift_identity". Print Assumptions c16_lift_identity.
+Eval vm_compute in "ASSUMPTIONS c16_generated_params_plain". Print Assumptions c16_generated_params_plain.
